@@ -82,6 +82,31 @@ func (s *mState) setFwd(iface string, v bool) {
 	s.fwd[iface] = v
 }
 
+// setFail / clearFails / snapshot: the driver's own accesses are locked too (the advertisers read concurrently).
+func (s *mState) setFail(iface string, fwd, auto bool) {
+	s.mu.Lock()
+	defer s.mu.Unlock()
+	if fwd {
+		s.failFwd[iface] = true
+	}
+	if auto {
+		s.failAuto[iface] = true
+	}
+}
+
+func (s *mState) clearFails() {
+	s.mu.Lock()
+	defer s.mu.Unlock()
+	s.failFwd, s.failAuto = map[string]bool{}, map[string]bool{}
+}
+
+// get returns (forwarding, autoconf, forwarding read fails, autoconf read fails) without counting a read.
+func (s *mState) get(iface string) (fwd, auto, failFwd, failAuto bool) {
+	s.mu.Lock()
+	defer s.mu.Unlock()
+	return s.fwd[iface], s.auto[iface], s.failFwd[iface], s.failAuto[iface]
+}
+
 func (s *mState) reads(iface string) int {
 	s.mu.Lock()
 	defer s.mu.Unlock()
@@ -187,6 +212,18 @@ func (s *mSources) Addrs() ([]system.IP, error) {
 		return nil, errInjectedM
 	}
 	return append([]system.IP(nil), s.addrs...), nil
+}
+
+func (s *mSources) setFail(addrs, routes bool) {
+	s.mu.Lock()
+	defer s.mu.Unlock()
+	s.failAddrs, s.failRoute = addrs, routes
+}
+
+func (s *mSources) failing() bool {
+	s.mu.Lock()
+	defer s.mu.Unlock()
+	return s.failAddrs || s.failRoute
 }
 
 func (s *mSources) Routes() ([]system.Route, error) {
